@@ -572,8 +572,8 @@ func c14Clear(c *core.Ctx) {
 
 func init() {
 	register(&Property{
-		ID:    "C14",
-		Level: "proof",
+		ID:          "C14",
+		Level:       "proof",
 		Explanation: "Static proof of the fail-stop structure over every path of the code: (guard) every exported method of *BridgeSync and *L1InfoTreeSync, enumerated from the method sets, whose callee cone reaches processor data (SQL handle or trees) passes the false edge of processor.isHalted() before the first access and returns sync.ErrInconsistentState on the true edge; (stop) both ProcessBlock functions test the flag before opening a transaction and the driver cancels and returns on ErrInconsistentState; (set) every halting site latches halted=true and returns ErrInconsistentState without commit, and the deposit-count gap always reaches the latch; (clear) all writes to the two halted flags in the whole repository are enumerated: only constant-true stores, and the address handed to sync.UnhaltIfAffectedRows, which clears only under rowsAffected > 0 and is called only from Reorg after Commit()==nil with RowsAffected() of the `DELETE FROM block` statement. The guard rule also covers façade methods that read the contract binding (served as syncer data). Added after round 7: C14-value (the reorg handed to the processor is the notified one, shared with C06), C14-index (an out-of-sequence deposit count always surfaces as tree.ErrInvalidIndex).",
 		Assumptions: []string{
 			"a query already past the guard when the syncer halts may still return data (inherent window; property read as: queries that start after the halt)",
